@@ -1,6 +1,6 @@
 (* C11 - the template parser is total and its diagnostics are well-formed.  Theorems only. *)
 From Coq Require Import Lia.
-From Ructe Require Import Nom NomFacts Utf8 Spacelike Expression TemplateExpr Template ParseResult Emit Compile ParserProofs DiagProofs.
+From Ructe Require Import Nom NomFacts Utf8 Spacelike Expression TemplateExpr Template ParseResult Emit Compile ParserProofs DiagProofs FuelFacts FuelProofs.
 Local Open Scope list_scope.
 
 (* every byte sequence (valid UTF-8 or not, any nesting): neither the parser nor the rendering of
@@ -12,6 +12,28 @@ Proof. exact compile_never_panics_lemma. Qed.
 
 Theorem parse_no_panic : forall src : bytes, parse_template src <> Abort APanic.
 Proof. exact parse_template_no_panic. Qed.
+
+(* the model itself is total: the fuel Model/Compile.v hands to its recursive grammars
+   (4 * |src| + 16) is always enough, so the NoFuel outcome is unreachable and every source text is
+   either Accepted or Rejected.  The Rust parsers recurse without a counter; the ranks used here
+   (2k+2 for the expression grammar, 2k+2 for types, k+1 for template expressions and conditions on
+   inputs of length k) bound their recursion depth, which is why they terminate. *)
+Theorem parse_fuel_sufficient : forall src : bytes, parse_template src <> Abort AFuel.
+Proof. exact parse_fuel_sufficient_lemma. Qed.
+
+Theorem compile_total : forall (uni_esc : N -> bool) (name src : bytes),
+  (exists rust, compile uni_esc name src = Accepted rust) \/ (exists diag, compile uni_esc name src = Rejected diag).
+Proof.
+  intros ue name src. pose proof (compile_never_panics_lemma ue name src). pose proof (compile_never_out_of_fuel_lemma ue name src).
+  destruct (compile ue name src); [left; eauto|right; eauto|congruence|congruence].
+Qed.
+
+(* the recursion-depth bounds behind it, for every fuel n and input length k *)
+Theorem grammar_fuel_ranks :
+  (forall n k x, erank x k <= n -> nf k (expr_gram n x)) /\
+  (forall n k x, tyrank x k <= n -> nf k (ty_gram n x)) /\
+  (forall E, (forall x, good (E x)) -> forall ln n k x, k + 1 <= n -> (forall y, nf k (E y)) -> nf k (logic_expression E ln) -> nf k (texpr_gram E ln n x)).
+Proof. split; [exact expr_fuel|split; [exact ty_fuel|]]. intros E HE ln n k x. now apply texpr_fuel. Qed.
 
 (* every error position the parser records lies inside the input, so `buf.len() - rest.len()`
    and `buf[0..pos]` cannot panic, and show_errors is total *)
@@ -66,6 +88,9 @@ Proof. repeat split; eexists; vm_compute; reflexivity. Qed.
 
 Redirect "assumptions/C11.compile_never_panics" Print Assumptions compile_never_panics.
 Redirect "assumptions/C11.parse_no_panic" Print Assumptions parse_no_panic.
+Redirect "assumptions/C11.parse_fuel_sufficient" Print Assumptions parse_fuel_sufficient.
+Redirect "assumptions/C11.compile_total" Print Assumptions compile_total.
+Redirect "assumptions/C11.grammar_fuel_ranks" Print Assumptions grammar_fuel_ranks.
 Redirect "assumptions/C11.errors_are_inside_input" Print Assumptions errors_are_inside_input.
 Redirect "assumptions/C11.reject_has_wellformed_diagnostics" Print Assumptions reject_has_wellformed_diagnostics.
 Redirect "assumptions/C11.echoed_line_is_a_source_line" Print Assumptions echoed_line_is_a_source_line.
